@@ -153,6 +153,11 @@ class FnAnalysis:
                 t = ("bin", op.replace("WithOverflow", ""), a, b, ty)
                 self._reg(t, ty)
                 return ("ovf", t)
+            if op in sym.CMP and ty in INT_TYS and is_c(a) != is_c(b):
+                # a comparison with a constant keeps its relational form (so `0 != n` records 0 < n), not a range test
+                if op in ("Gt", "Ge"):
+                    op, a, b = ("Lt" if op == "Gt" else "Le"), b, a
+                return ("bin", op, a, b, ty)
             t = binop(op, a, b, ty)
             if op not in sym.CMP:
                 self._reg(t, ty)
@@ -204,6 +209,14 @@ class FnAnalysis:
         k = st.rng.get(t)
         if k is not None:
             r = meet(r, k)
+        if st.rel and depth < 2 and not is_c(t):
+            for op, u, v in st.rel:
+                if u == t and v != t:
+                    hb = self.range_of(st, v, depth + 3)[1]
+                    r = (r[0], min(r[1], hb - (1 if op == "lt" else 0)))
+                elif v == t and u != t:
+                    lb = self.range_of(st, u, depth + 3)[0]
+                    r = (max(r[0], lb + (1 if op == "lt" else 0)), r[1])
         return r
 
     def _range(self, st, t, depth):
@@ -375,6 +388,10 @@ class FnAnalysis:
             return True
         if a[0] == "satsub" and self.le(st, a[1], b, d, strict):
             return True
+        if not strict and a[0] == "bin" and len(a) == 5 and a[1] == "Add":
+            for x, k in ((a[2], a[3]), (a[3], a[2])):
+                if is_c(k) and k[1] == 1 and self.le(st, x, b, d, True):
+                    return True         # x < b  =>  x + 1 <= b (integers)
         if a[0] == "bin" and a[1] == "Sub" and len(a) == 5 and self.range_of(st, a[3])[0] >= 0 and self.le(st, a[2], b, d, strict):
             return True         # x - k <= x for k >= 0 (the subtraction itself is checked for underflow separately)
         if b[0] == "bin" and b[1] == "Add" and len(b) == 5:
@@ -464,7 +481,23 @@ class FnAnalysis:
     def assume(self, st, c, truth):
         t = self.truth(st, c)
         if t is not None:
-            return st if t == truth else None
+            if t != truth:
+                return None
+            if c[0] == "bin" and len(c) == 5 and c[1] in ("Lt", "Le", "Ne", "Eq") and not (is_c(c[2]) and is_c(c[3])):
+                # decided from the ranges, but keep the ordering as a fact: it may be all that survives a later join
+                a, b, op = c[2], c[3], c[1]
+                if not truth:
+                    op, a, b = {"Lt": ("Le", b, a), "Le": ("Lt", b, a), "Eq": ("Ne", a, b), "Ne": ("Eq", a, b)}[op]
+                fact = None
+                if op in ("Lt", "Le"):
+                    fact = ("lt" if op == "Lt" else "le", a, b)
+                elif op == "Ne":
+                    ra, rb = self.range_of(st, a), self.range_of(st, b)
+                    fact = ("lt", a, b) if ra[1] < rb[0] else (("lt", b, a) if rb[1] < ra[0] else None)
+                if fact is not None and fact not in st.rel:
+                    st = st.copy()
+                    st.rel = st.rel | {fact}
+            return st
         st = st.copy()
         k = c[0]
         if k == "not":
@@ -510,6 +543,12 @@ class FnAnalysis:
                 m = meet(ra, rb)
                 st.rng[a] = m
                 st.rng[b] = m
+            elif op == "Ne":
+                # a != b together with a <= b (b <= a) is a < b (b < a)
+                if self.le(st, a, b):
+                    st.rel = st.rel | {("lt", a, b)}
+                elif self.le(st, b, a):
+                    st.rel = st.rel | {("lt", b, a)}
             for x in (a, b):
                 r = st.rng.get(x)
                 if r is not None and r[0] > r[1]:
@@ -727,6 +766,7 @@ class FnAnalysis:
         # additionally widen against their previous entry
         edge = {}
         preds = {}
+        invariant = {}
         guard = 0
         while work:
             guard += 1
@@ -742,14 +782,23 @@ class FnAnalysis:
             for succ, s2 in outs.items():
                 edge[(bb, succ)] = s2
                 preds.setdefault(succ, set()).add(bb)
+                keep = None
+                if succ in heads:
+                    # locals the loop never assigns keep the value they have on the entry edges (no phi for them)
+                    inv = invariant.get(succ)
+                    if inv is None:
+                        inv = invariant[succ] = set(range(len(fn.locals))) - _assigned_in(fn, loops[succ])
+                    ent = [edge[(p, succ)] for p in sorted(preds[succ]) if p not in loops[succ]]
+                    if len(ent) == 1:
+                        keep = {l: v for l, v in ent[0].val.items() if l in inv}
                 acc = None
                 for p in sorted(preds[succ]):
                     e = edge[(p, succ)]
-                    acc = e if acc is None else self.join(acc, e, succ)
+                    acc = e if acc is None else self.join(acc, e, succ, keep=keep)
                 old = self.entry.get(succ)
                 n = self.visits.get(succ, 0)
                 if old is not None and succ in heads:
-                    acc = self.join(old, acc, succ, widen=(n > 3))
+                    acc = self.join(old, acc, succ, widen=(n > 3), keep=keep, fresh_rel=(n <= 8))
                 if old is not None and acc.key() == old.key():
                     continue
                 self.visits[succ] = n + 1
@@ -757,16 +806,20 @@ class FnAnalysis:
                 if succ not in work:
                     work.append(succ)
 
-    def join(self, a, b, bb, widen=False):
+    def join(self, a, b, bb, widen=False, keep=None, fresh_rel=False):
         val = {}
         rng = {}
+        newphi = {}        # phi term -> (value on edge a, value on edge b)
         for l in set(a.val) & set(b.val):
             if a.val[l] == b.val[l]:
                 val[l] = a.val[l]
+            elif keep and l in keep:
+                val[l] = keep[l]        # not assigned anywhere in this loop: the value it had on entry
             else:
                 p = ("phi", bb, l)
                 self._reg(p, self.local_ty(l))
                 val[l] = p
+                newphi[p] = (a.val[l], b.val[l])
                 ra = self.range_of(a, a.val[l])
                 rb = self.range_of(b, b.val[l])
                 h = hull(ra, rb)
@@ -775,15 +828,42 @@ class FnAnalysis:
                     tr = self.tyrange(p)
                     h = (h[0] if h[0] >= old[0] else tr[0], h[1] if h[1] <= old[1] else tr[1])
                 rng[p] = h
+        rebound = set(newphi)
+
+        def stale(t):
+            """t mentions a phi of this block that is being re-bound by this join: facts about it describe the old value"""
+            return bool(rebound) and any(_mentions_any(t, rebound) for _ in (0,))
         for t in set(a.rng) & set(b.rng):
             if t in rng:
+                continue
+            if t not in rebound and stale(t):
                 continue
             h = hull(a.rng[t], b.rng[t])
             if widen and h != a.rng[t]:
                 tr = self.tyrange(t)
                 h = (h[0] if h[0] >= a.rng[t][0] else tr[0], h[1] if h[1] <= a.rng[t][1] else tr[1])
             rng[t] = h
-        return State(val, rng, a.rel & b.rel)
+        # head update (a = the block's previous entry, b = the join over all its incoming edges as they stand now): b alone
+        # already covers every way into the block, so its ordering facts are taken as they are for the first rounds (a
+        # cannot know facts about terms that did not exist when it was computed); later rounds intersect, which terminates
+        base = b.rel if fresh_rel else (a.rel & b.rel)
+        rel = {f for f in base if not (stale(f[1]) or stale(f[2]))}
+        # relational invariants of re-bound values: `phi <= B` (or `B <= phi`) holds after the join when it holds for the
+        # value on each incoming edge in that edge's state (B itself not re-bound here)
+        for p, (xa, xb) in newphi.items():
+            cands = set()
+            for st_ in (a, b):
+                for op, u, v in st_.rel:
+                    cands.add(("up", v))
+                    cands.add(("lo", u))
+            for side, B in cands:
+                if stale(B) or is_c(B):
+                    continue
+                if side == "up" and self.le(a, xa, B) and self.le(b, xb, B):
+                    rel.add(("le", p, B))
+                elif side == "lo" and self.le(a, B, xa) and self.le(b, B, xb):
+                    rel.add(("le", B, p))
+        return State(val, rng, frozenset(rel))
 
     # ---------------- final pass: visit every reachable terminator with its pre-state
     def visit_sites(self, visitor):
@@ -791,6 +871,36 @@ class FnAnalysis:
             if self.fn.blocks[bb]["cleanup"]:
                 continue
             self.step_block(bb, self.entry[bb], visitor)
+
+
+def _assigned_in(fn, body):
+    """locals written (assigned, mutably borrowed, or a call destination) somewhere in the blocks of `body`"""
+    out = set()
+    for b in body:
+        blk = fn.blocks[b]
+        for st in blk["stmts"]:
+            if st["s"] == "assign":
+                out.add(st["dst"]["l"])
+                if st.get("rv") in ("ref", "rawptr") and not str(st.get("bk", "")).startswith(("Shared", "Fake", "Not")):
+                    out.add(st["pl"]["l"])
+            elif st["s"] == "setdiscr":
+                out.add(st["dst"]["l"])
+        t = blk["term"]
+        if t and t["t"] == "call":
+            out.add(t["dest"]["l"])
+        if t and t["t"] == "yield" and t.get("resume_arg"):
+            out.add(t["resume_arg"]["l"])
+        if t and t["t"] == "drop":
+            out.add(t["pl"]["l"])
+    return out
+
+
+def _mentions_any(t, subs):
+    if t in subs:
+        return True
+    if isinstance(t, tuple):
+        return any(_mentions_any(x, subs) for x in t if isinstance(x, tuple))
+    return False
 
 
 class Engine:
